@@ -23,8 +23,8 @@ META = dict(
 _u = copy.deepcopy([u for u in C01.UNITS if u['name'] == 'props2d'][0])
 _u['name'] = 'props2d_section'
 _u['canaries'] = [
-    (r'E_add_a_mul_a_a\(\(\*Point2_op_index__unsignedlong_c\(&this_->cross_section\.data\[wb_idx\(\(\(unsigned long\)0\), this_->cross_section\.n\)\], \(\(unsigned long\)1\)\)\)',
-     'E_add_a_mul_a_a((*Point2_op_index__unsignedlong_c(&this_->cross_section.data[wb_idx(((unsigned long)0), this_->cross_section.n)], ((unsigned long)0)))', 'second coordinate starts from the first component of the section origin'),
+    (r'E_add_a_mul_a_a\(this_->cross_section\.data\[wb_idx\(\(\(unsigned long\)0\), this_->cross_section\.n\)\]\.point\.e\[\(\(\(unsigned long\)1\)\)\]',
+     'E_add_a_mul_a_a(this_->cross_section.data[wb_idx(((unsigned long)0), this_->cross_section.n)].point.e[(((unsigned long)0))]', 'second coordinate starts from the first component of the section origin'),
     (r'= \(\(double\)0\);\n\s*counter \+= \(\(unsigned int\)3\)', '= ((double)1);\n              counter += ((unsigned int)3)', 'third velocity slot set to 1 instead of 0'),
 ]
 # World::parse_entries (constants wiring / cross-section direction): shared contract file, unit defined in C15.py
